@@ -422,7 +422,7 @@ func judgeAll(o *common.Opts, res *common.Result, fcfg FilterCfg, recs []*Record
 			// model: the same configuration through the Lean filter model
 			if mCall != nil {
 				callerr := 0
-				if r.Script.ErrKind != "" && !(r.Script.ErrKind == "tars" && r.Script.ErrCode == 0) {
+				if r.Script.ErrKind != "" {
 					callerr = 1
 				}
 				q := []string{
